@@ -13,6 +13,7 @@ import (
 
 	"github.com/alpacahq/marketstore/v4/utils/io"
 	"github.com/alpacahq/marketstore/v4/utils/log"
+	"github.com/alpacahq/marketstore/v4/verifhook"
 )
 
 type Directory struct {
@@ -163,6 +164,7 @@ func writeCategoryNameFile(catName, dirName string) error {
 func (d *Directory) AddTimeBucket(tbk *io.TimeBucketKey, f *io.TimeBucketInfo) (err error) {
 	d.Lock()
 	defer d.Unlock()
+	verifhook.At("Cat.add.locked", tbk.GetItemKey())
 
 	catkeySplit := tbk.GetCategories()
 	datakeySplit := tbk.GetItems()
@@ -189,6 +191,7 @@ func (d *Directory) AddTimeBucket(tbk *io.TimeBucketKey, f *io.TimeBucketInfo) (
 	if err2 := newTimeBucketInfoFromTemplate(f); err2 != nil {
 		return err2
 	}
+	verifhook.At("Cat.add.created", tbk.GetItemKey())
 
 	/*
 		Check to see if this is an empty top level directory, if so - we need to set
@@ -207,6 +210,7 @@ func (d *Directory) AddTimeBucket(tbk *io.TimeBucketKey, f *io.TimeBucketInfo) (
 	if err != nil {
 		return err
 	}
+	verifhook.At("Cat.add.scanned", tbk.GetItemKey())
 	d.addSubdir(childDirectory, childNodeName)
 	return nil
 }
@@ -230,6 +234,7 @@ func (d *Directory) RemoveTimeBucket(tbk *io.TimeBucketKey) (err error) {
 		}
 		current = tree[i]
 	}
+	verifhook.At("Cat.rm.found", tbk.GetItemKey())
 	deleteMap := make([]bool, len(datakeySplit))
 	end := len(datakeySplit) - 1
 	for i := end; i >= 0; i-- {
@@ -238,6 +243,7 @@ func (d *Directory) RemoveTimeBucket(tbk *io.TimeBucketKey) (err error) {
 				return err2
 			}
 			deleteMap[i] = true // This dir was deleted, we'll remove it from the parent's subdir list later
+			verifhook.At("Cat.rm.leafRemoved", tbk.GetItemKey())
 		} else if deleteMap[i+1] {
 			tree[i].removeSubDir(tree[i+1].itemName, d.directMap)
 		}
@@ -252,6 +258,7 @@ func (d *Directory) RemoveTimeBucket(tbk *io.TimeBucketKey) (err error) {
 		if err2 := removeDirFiles(tree[0]); err2 != nil {
 			return err2
 		}
+		verifhook.At("Cat.rm.beforeRoot", tbk.GetItemKey())
 		d.removeSubDir(tree[0].itemName, d.directMap)
 	}
 	return nil
@@ -417,6 +424,7 @@ func (d *Directory) GetPath() string {
 func (d *Directory) GetSubDirectoryAndAddFile(fullFilePath string, year int16) (*io.TimeBucketInfo, error) {
 	d.Lock()
 	defer d.Unlock()
+	verifhook.At("Cat.addfile.locked", fullFilePath, year)
 	dirPath := path.Dir(fullFilePath)
 	if d.directMap != nil {
 		if dir, ok := d.directMap.Load(dirPath); ok {
